@@ -1,4 +1,4 @@
-\* probing phase, 3 full chunks, capacities 2
+\* probing phase, 3 full chunks, every -B class, one pause; capacities 2
 SPECIFICATION Spec
 CONSTANTS
   Floor = 1024
@@ -8,10 +8,10 @@ CONSTANTS
   BoundFloor = 1048576
   SendCap = 2
   AckCap = 2
-  MaxBufs = {1024, 4096, 10240, 16384, 40960, 1048576, 1073741824}
+  MaxBufs = {1024, 4096, 10240, 40960, 1073741824}
   Modes = {"bin"}
   Protos = {4}
-  Secs = {2, 3, 20}
+  Secs = {2, 20}
   MaxChunks = 3
   P1MaxChunks = 1
   MaxFiles = 1
